@@ -1586,7 +1586,10 @@ pub fn c06_after(ck: &mut Checker, sim: &mut Sim, session: usize, _p: Proto, dat
                     findings.push((
                         // below the finalized check point no quorum is consulted: the filter was
                         // checked against hashes that a single peer supplied
-                        if n <= finalized {
+                        if n <= finalized && t.note.contains("consistent with the made-up hashes") {
+                            // the recorded cache-poisoning attack (unsolicited hashes + filters)
+                            "tampered_filters_accepted_after_unsolicited_hashes_poisoned_the_cache"
+                        } else if n <= finalized {
                             "tampered_filter_accepted_below_the_finalized_check_point"
                         } else {
                             "filtered_height_advanced_over_a_tampered_filter"
@@ -1643,6 +1646,7 @@ pub fn c06_after(ck: &mut Checker, sim: &mut Sim, session: usize, _p: Proto, dat
         sim.violate("C06", clause, detail);
         if clause == "matched_record_names_a_block_outside_the_filtered_range"
             || clause == "tampered_filter_accepted_below_the_finalized_check_point"
+            || clause == "tampered_filters_accepted_after_unsolicited_hashes_poisoned_the_cache"
         {
             sim.taint = Some(format!("C06/{}", clause));
         }
